@@ -92,3 +92,36 @@ def read_stage(ctx, files):
     need_lists = [[q for q in (n or '').split(' ') if ':' in q] for n in needs]
     tabs = burl_tables(ctx, need_lists)
     return ctx.both([f'bundle.read {f} {u} {c}' for f, (u, c) in zip(files, tabs)])
+
+
+# ---------------------------------------------------------------- hand-assembled b2 bundles (python CBOR, only to build inputs)
+def _head(major, n):
+    if n < 24: return bytes([major << 5 | n])
+    if n < 1 << 8: return bytes([major << 5 | 24, n])
+    if n < 1 << 16: return bytes([major << 5 | 25]) + n.to_bytes(2, 'big')
+    if n < 1 << 32: return bytes([major << 5 | 26]) + n.to_bytes(4, 'big')
+    return bytes([major << 5 | 27]) + n.to_bytes(8, 'big')
+
+
+def _bstr(b): return _head(2, len(b)) + b
+def _tstr(b): return _head(3, len(b)) + b
+
+
+def craft_response(pairs, body, count=None):
+    """[headers, payload] with the header map written exactly as given: `pairs` in order, duplicates / any case allowed"""
+    hdr = _head(5, len(pairs) if count is None else count) + b''.join(_bstr(k) + _bstr(v) for k, v in pairs)
+    return b'\x82' + _bstr(hdr) + _bstr(body)
+
+
+def craft_b2(entries, primary=None):
+    """entries: [(url bytes, response bytes)]; responses laid out in order, index in the given order"""
+    offs, blob = [], b''
+    for u, r in entries:
+        offs.append((len(_head(4, len(entries))) + len(blob), len(r))); blob += r
+    responses = _head(4, len(entries)) + blob
+    idx = _head(5, len(entries)) + b''.join(_tstr(u) + _head(4, 2) + _head(0, o) + _head(0, l) for (u, r), (o, l) in zip(entries, offs))
+    secs = [(b'index', idx)] + ([(b'primary', _tstr(primary))] if primary else []) + [(b'responses', responses)]
+    sl = _head(4, 2 * len(secs)) + b''.join(_tstr(n) + _head(0, len(b)) for n, b in secs)
+    b = bytes([0x85, 0x48, 0xf0, 0x9f, 0x8c, 0x90, 0xf0, 0x9f, 0x93, 0xa6, 0x44]) + b'b2\0\0' + _bstr(sl) + _head(4, len(secs)) + b''.join(b for n, b in secs)
+    return b + b'\x48' + (len(b) + 9).to_bytes(8, 'big')
+
